@@ -33,7 +33,7 @@ class DecimalArm(EvalArm):
     def setup(self, ctx, prog, e, st, runner):
         tree, sexpr = build_tree(st, 'decimal', self.shape)
         leaves = leaves_of(self.shape)
-        entry = prog.find_fn(r'(^|::)eval_decimal::ast::eval$')
+        entry = prog.entry('decimal', 'eval')
         ob = self
         self._sexpr_with = lambda vals: self.sexpr_concrete(vals)
         state = {'last': None}
